@@ -39,7 +39,7 @@ from . import extract, rtok
 from .extract import LostAnchor, Piece
 
 ALWAYS_STRIP = ['tracing', 'derive', 'builder', 'serde', 'allow', 'doc', 'default']
-DIRECTIVE = re.compile(r'^\s*//@@\s*(\w+)\s*:?\s*(.*)$')
+DIRECTIVE = re.compile(r'^\s*//@@\s*(\w+\??)\s*:?\s*(.*)$')
 TAG = re.compile(r'//#\s*([\w.\-]+)')
 
 
@@ -103,28 +103,41 @@ def _apply_common(piece, blk):
         for h in hits:
             piece.insert_after(h + n - 1, txt, 'ghost_arg')
     for anchor, spec in blk.get('closure_specs', []):
-        # anchor ends with the closing `|` of a closure's parameter list; the closure is the last
-        # argument of a call: its body extends to the `)` matching the `(` that precedes the closure
+        # anchor = `<callee>(`; if the first argument of that call is a closure `|p, ..| body` (or
+        # `move |..|`), its body is wrapped in braces and given the contract `spec`, in which $1 is
+        # the first parameter's name. Absent call: nothing to do. Call without closure: hint skipped.
         hits, n = piece.find(anchor, unique=False, what='closure_spec')
-        if len(hits) != 1:
-            piece.counts['closure_spec_skipped'] = piece.counts.get('closure_spec_skipped', 0) + 1
+        if len(hits) == 0:
             continue
         s = piece.src.s
-        bar2 = hits[0] + n - 1
-        assert s[bar2].text in ('|', '||'), 'closure_spec anchor must end with |'
-        k = bar2 - 1 if s[bar2].text == '|' else bar2
-        while s[bar2].text == '|' and s[k].text != '|':
-            k -= 1
-        if k - 1 >= 0 and s[k - 1].text == 'move':
-            k -= 1
-        opener = k - 1
-        if s[opener].text != '(':
-            raise LostAnchor(f'{piece.label}: closure_spec `{anchor}`: closure is not the first argument of a call')
+        if len(hits) > 1:
+            piece.counts['hint_skipped'] = piece.counts.get('hint_skipped', 0) + 1
+            continue
+        opener = hits[0] + n - 1
+        assert s[opener].text == '(', 'closure_spec anchor must end with ('
+        k = opener + 1
+        if s[k].text == 'move':
+            k += 1
+        if s[k].text != '|':
+            piece.counts['hint_skipped'] = piece.counts.get('hint_skipped', 0) + 1
+            continue
+        pname = s[k + 1].text if s[k + 1].kind == 'ident' else '_'
+        if pname == 'mut':
+            pname = s[k + 2].text
+        bar2 = k + 1
+        while s[bar2].text != '|':
+            bar2 += 1
         closer = rtok.match_close(s, opener)
-        piece.insert_after(bar2, ' ' + spec + ' {', 'closure_spec')
+        piece.insert_after(bar2, ' ' + spec.replace('$1', pname) + ' {', 'closure_spec')
         piece.insert_before(closer, '}', 'closure_spec')
         piece.counts['closure_spec'] -= 1
     for where, anchor, lines in blk.get('anchored', []):
+        if where.endswith('?'):
+            where = where[:-1]
+            hits, n = piece.find(anchor, unique=False, what=where)
+            if len(hits) != 1:
+                piece.counts['hint_skipped'] = piece.counts.get('hint_skipped', 0) + 1
+                continue
         if where == 'before_stmt':
             hits, n = piece.find(anchor, what=where)
             s = piece.src.s
@@ -330,7 +343,7 @@ def generate(repo, template_text, variables=None):
             elif d == 'closure_spec':
                 frm, to = rest.split('==>')
                 blk.setdefault('closure_specs', []).append((frm.strip(), to.strip()))
-            elif d in ('after', 'before', 'before_stmt'):
+            elif d in ('after', 'before', 'before_stmt', 'after?', 'before?', 'before_stmt?'):
                 lst = []
                 blk['anchored'].append((d, rest, lst))
                 section = lst
